@@ -299,8 +299,27 @@ pub struct Fs(pub Arc<Mutex<FsInner>>);
 
 struct CrashMarker;
 
+/// An injected fault. Its `ErrorKind` rotates through the kinds a real filesystem hands out (the property is "any IO
+/// fault": no kind of error may be taken for success, retried in place or treated specially), EXCEPT `Interrupted`,
+/// which `std`'s own `write_all` / `read_exact` loops legitimately retry.
 fn io_err(what: &str) -> io::Error {
-    io::Error::new(io::ErrorKind::Other, what.to_string())
+    use std::sync::atomic::{AtomicUsize, Ordering};
+    static NEXT: AtomicUsize = AtomicUsize::new(0);
+    const KINDS: [io::ErrorKind; 12] = [
+        io::ErrorKind::Other,
+        io::ErrorKind::Unsupported,
+        io::ErrorKind::InvalidInput,
+        io::ErrorKind::PermissionDenied,
+        io::ErrorKind::NotFound,
+        io::ErrorKind::WouldBlock,
+        io::ErrorKind::TimedOut,
+        io::ErrorKind::WriteZero,
+        io::ErrorKind::UnexpectedEof,
+        io::ErrorKind::OutOfMemory,
+        io::ErrorKind::InvalidData,
+        io::ErrorKind::AlreadyExists,
+    ];
+    io::Error::new(KINDS[NEXT.fetch_add(1, Ordering::Relaxed) % KINDS.len()], what.to_string())
 }
 
 fn name_of(path: &Path) -> String {
